@@ -94,6 +94,29 @@ TEXT = {
         note=COMMON_NOTE,
         technique="TLC model checking + TLC-generated exhaustive small scope replayed on the crate + TLA+ trace validation",
         ref="DESIGN.md section 7 C07"),
+    "C08": dict(
+        level="The specification never divides to judge a quotient: r is accepted iff r*b = a exactly, or r has the sign of a/b, at "
+              "least `precision` digits, 2*|r*b - a| <= |b|*ulp(r), a tie only when |r*b| > |a| (away from zero), and - checked by "
+              "one long division only in the single corner where it can matter - the true quotient does not terminate within the "
+              "precision. A zero divisor admits exactly one outcome, a panic, in all 112 division spellings (every primitive width "
+              "by value and by reference on either side, /=, float numerators). A history variable makes all spellings of the same "
+              "division return the same value. MC_Rem (TLC, exhaustive small scope) shows the crate's digit-loop mechanism "
+              "(shift the numerator, one digit per iteration, final half-up step) satisfies this relation for precisions 1..3. "
+              "Driver: quotients built to terminate, tie (..5 at digit P+1, generated inside the digit loop) or nearly tie around "
+              "the P-th digit, divisors 2^i 5^j, operands to 500/2000 digits, |a| << |b| and >> |b|, equal unscaled integers.",
+        note=COMMON_NOTE + " Float DIVISORS and `1 / x` (the reciprocal, C12) are judged by their own relations.",
+        technique="TLC model checking of the division mechanism against the relation (MC_Rem) + relational, stateful TLA+ trace validation",
+        ref="DESIGN.md section 7 C08"),
+    "C09": dict(
+        level="MC_Rem (TLC, exhaustive small scope with scale gaps up to 130) shows the remainder operator of the specification "
+              "satisfies the truncated-division identity with an integer quotient, |r| < |b|, sign(r) in {0, sign(a)}, "
+              "independence of sign(b), and that the formulation used for 10^4-digit scale gaps (split dividend / square-and-"
+              "multiply power of ten) agrees with the naive one. All five spellings (four ownership forms and %=) are run on the "
+              "same operands - each re-implements the alignment - for every gap 0..45, gaps around 256, 512, 590, 1000, 4096, "
+              "10^4 in both directions, operands to 400/2000 digits, exact multiples, equal operands; zero divisors must panic.",
+        note=COMMON_NOTE,
+        technique="TLC model checking of the remainder identity (MC_Rem) + TLA+ trace validation (functional)",
+        ref="DESIGN.md section 7 C09"),
     "C16": dict(
         level="The specification defines {:.N} as: a numeral with exactly N fraction digits whose value is RoundToScale(x, N, "
               "configured mode) - the same operator that decides C06 - or, for integers whose padding would exceed the limit, an "
